@@ -466,6 +466,9 @@ type EncKDCRepPart struct {
 	SName         Name
 	CAddr         []Addr
 	EncPAData     []PA
+	// NonceWide, if non-nil, is encoded in place of Nonce: an INTEGER outside the UInt32 range (or a negative one), as a
+	// non-conformant or hostile KDC may send it. The parsers never set it.
+	NonceWide *int64
 }
 
 // DER encodes EncKDCRepPart under its application tag.
@@ -481,8 +484,12 @@ func (e EncKDCRepPart) DER() []byte {
 	if e.EncPAData != nil {
 		epa = der.Ctx(12, PAsDER(e.EncPAData))
 	}
+	nonce := int64(e.Nonce)
+	if e.NonceWide != nil {
+		nonce = *e.NonceWide
+	}
 	return der.App(e.AppTag, der.Seq(
-		der.Ctx(0, e.Key.DER()), der.CtxAlways(1, der.Seq(lrs...)), der.Ctx(2, der.Int(int64(e.Nonce))),
+		der.Ctx(0, e.Key.DER()), der.CtxAlways(1, der.Seq(lrs...)), der.Ctx(2, der.Int(nonce)),
 		optTime(3, e.KeyExpiration), der.Ctx(4, der.Flags32(e.Flags)), der.Ctx(5, der.GenTime(e.AuthTime)),
 		optTime(6, e.StartTime), der.Ctx(7, der.GenTime(e.EndTime)), optTime(8, e.RenewTill),
 		der.Ctx(9, der.GenString(e.SRealm)), der.Ctx(10, e.SName.DER()), caddr, epa))
